@@ -267,6 +267,13 @@ static void run_shape(void) {
 #include "shapes.inc"
 
 // ================================================================ (3) termination of mutual recursion
+// NOTE: this harness does not finish in cbmc 6.11 (see props/c09.py: listed as attempted / not claimed)
+#ifndef TM_N
+#define TM_N 3      // number of macros
+#endif
+#ifndef TM_L
+#define TM_L 1      // maximal body length
+#endif
 enum { T_M0, T_M1, T_M2, T_PLAIN, T_N };
 static char *mname[4] = {"M0", "M1", "M2", "t"};
 static Macro mac[3];
@@ -285,12 +292,12 @@ char *stub_read_include_filename(Token **rest, Token *tok, bool *is_dquote) { UN
 void stub_read_macro_definition(Token **rest, Token *tok) { UNREACH("no directive in this input"); }
 void stub_read_line_marker(Token **rest, Token *tok) { UNREACH("no directive in this input"); }
 
-#ifndef TM_N
-#define TM_N 3      // number of macros
-#endif
-#ifndef TM_L
-#define TM_L 1      // maximal body length
-#endif
+// hideset_contains replaced by its specification (membership; proved for the real function in (1)).
+// In this harness every spelling is one of the pooled strings mname[], so membership is pointer identity.
+bool stub_hideset_contains(Hideset *hs, char *s, int len) {
+  for (; hs; hs = hs->next) if (hs->name == s) return true;
+  return false;
+}
 void h_terminate(void) {
   HAVOC_IN();
   __CPROVER_assume(IN.start < TM_N);
@@ -315,7 +322,7 @@ void h_terminate(void) {
   for (Token *t = out; n < 9 && t->kind != TK_EOF; t = t->next, n++) {
     bool is_macro = false;
     for (int i = 0; i < TM_N; i++) if (t->val == verif_spell(mname[i])) is_macro = true;
-    if (is_macro) VASSERT(hideset_contains(t->hideset, t->loc, t->len), "a macro name left in the output is in its own hide set");
+    if (is_macro) VASSERT(stub_hideset_contains(t->hideset, t->loc, t->len), "a macro name left in the output is in its own hide set");
   }
   VASSERT(n <= 8, "at most 2^3 tokens result");
   VCOVER();
